@@ -174,8 +174,7 @@ CHECKS.update({
           'invariants. The C++ split / split_cmdargs / trim / replace scanning loops are extracted mechanically and co-simulated with a reference tokeniser through a ghost token recorder.',
   'ref': 'C19', 'technique': 'CBMC loop contracts on exact-size non-terminated buffers; reference tokeniser / path automata co-simulation; cxx2c extraction with ghost token recorder',
   'note': 'NOT claimed: join (std::vector<std::string> loop is outside the extractor) and "join is split\'s inverse". Bounds: shell command tables <= 3 entries, argcmax in {0,1,2,3}, '
-          'path_is_simple converse up to length 7 (labelled). Open known findings: replace_substrings ignores maxsize, argvc_internal_split_n over-reads / treats NUL as blank (repairs pending '
-          're-anchoring of the units), creader_readline line semantics.'},
+          'path_is_simple converse up to length 7 (labelled). Recorded native-only observation (no unit): creader_readline line semantics (one-character lines, unterminated last line).'},
 })
 WIP = 'no proof unit built yet in this session (work in progress; see DESIGN.md for the planned contracts)'
 NOT_APPLICABLE = {
